@@ -15,4 +15,5 @@ def main (args : List String) : IO UInt32 := do
   | ["cfb"] => Driver.CfbC.main; return 0
   | ["pool"] => Driver.PoolC.main; return 0
   | ["kcpown"] => Driver.KcpOwnC.main; return 0
+  | ["fecown"] => Driver.FecOwnC.main; return 0
   | _ => IO.eprintln "usage: kcpdriver <component>"; return 2
